@@ -328,3 +328,45 @@ func VerifC13_clusterConf() {
 	_, _, _, _, _, _, _ = *k.Schem, *k.Uri, *k.Host, *k.StatusCode, *k.FailNum, *k.SuccNum, *k.CheckInterval
 	vrt.Cover("C13/cluster-conf-accepted-derefs-ok")
 }
+
+var vipStringsC13 = []struct {
+	s     string
+	valid bool   // a textual IPv4 / IPv6 address
+	canon string // the form bfe looks it up by (net.IP.String of the session VIP)
+}{
+	{"1.2.3.4", true, "1.2.3.4"}, {"2001:db8::1", true, "2001:db8::1"}, {"2001:DB8:0::1", true, "2001:db8::1"},
+	{"", false, ""}, {"1.2.3", false, ""}, {"1.2.3.4.5", false, ""}, {"1.2.3.256", false, ""}, {"host.example", false, ""},
+}
+
+// VerifC13_vipConf: vip_rule.data as a decoded struct through VipRuleConfLoad (VipTableConfCheck with the
+// real net.ParseIP + conversion): missing version, null / empty lists, valid and malformed addresses.
+func VerifC13_vipConf() {
+	conf := &vip_rule_conf.VipTableConf{}
+	if vrt.Choose("version", 2) == 1 {
+		conf.Version = "v"
+	}
+	shape := vrt.Choose("vips", 4) // 0: no Vips section, 1: p1: null, 2: p1: [], 3: p1: [address]
+	k := 0
+	switch shape {
+	case 1:
+		conf.Vips = vip_rule_conf.Product2Vip{"p1": nil}
+	case 2:
+		conf.Vips = vip_rule_conf.Product2Vip{"p1": vip_rule_conf.VipList{}}
+	case 3:
+		k = vrt.Choose("address", len(vipStringsC13))
+		conf.Vips = vip_rule_conf.Product2Vip{"p1": vip_rule_conf.VipList{vipStringsC13[k].s}}
+	}
+	hookVipC13 = conf
+	got, err := vip_rule_conf.VipRuleConfLoad(fileC13("VerifC13_decVip", conf))
+	if conf.Version == "" {
+		vrt.Assert(err != nil, "C13/vip-no-version-rejected")
+	}
+	if conf.Version != "" && (shape != 3 || vipStringsC13[k].valid) {
+		vrt.Assert(err == nil, "C13/vip-documented-accepted")
+	}
+	if err == nil && shape == 3 {
+		// accepted => the address is a real address and is found under the form bfe looks it up by
+		vrt.Assert(vipStringsC13[k].valid, "C13/vip-accepted-address-valid")
+		vrt.Assert(got.VipMap[vipStringsC13[k].canon] == "p1", "C13/vip-accepted-address-resolves")
+	}
+}
